@@ -61,6 +61,7 @@ BOUNDS = {
                     "arity1 1 row over D12"],
         "obsmask": "2-row screens (one plate / two plates): all 6^2 observation vectors x all plate-uniform masks; "
                    "3-row screen on plates p,q,p: 4^3 vectors x 4 masks; observations=None",
+        "observed": "histories on the 3 obsmask row sets: built without observations, every ordered selection of distinct plates observed through Screen.set_observed (2 value patterns), with and without a save/load before the first observation, then 3 save/load cycles",
         "superset": "sources: arity1 rows<=3 over S4, arity2 2 rows over S3; every non-empty sub-list; every other case again with the supplied mappings' ids reversed and with their rows rotated",
         "holdout": "3 parents (3-4 rows), fractions 0, 0.5, 1, both hold-out functions, full choice tree",
         "names": "1-row screens over 8^3 name triples x 3 control names; 2-row screens over all 64 ordered name pairs (names incl. empty, CJK, trailing blank, decomposed and compatibility unicode)",
@@ -268,6 +269,7 @@ def plan(tier, seed):
     for b in range(len(OBSMASK_BASES)):
         items.append({"k": "obsmask", "base": b, "alphabet": len(OBS)})
     items.append({"k": "obsmask", "base": 2, "alphabet": 4 if tier == "quick" else len(OBS)})
+    items.append({"k": "observed"})
     for n in (1, 2, 3):
         superset("S4", 1, n, 8)
     superset("S3", 2, 2, 14)
@@ -446,6 +448,25 @@ def run_case(case, col, tmp, verbose=False):
                 c2 = dict(case, memory=mem)
                 round_trip(build(case["spec"], control, tm, sm, memory=mem), cycles, col, c2, case["family"] + "|layout-" + mem, tmp, verbose)
         return
+    if kind == "observed":
+        s = build(case["spec"], control)
+        if case["reload_first"]:
+            path = os.path.join(tmp, "pre.h5")
+            s.save_h5(path)
+            s = Screen.load_h5(path)
+            os.remove(path)
+        pn = np.array(case["spec"]["pn"], dtype=str)
+        special = [float("nan"), 5e-324, 1e300, -0.0, 0.25]
+        j = 0
+        for plate in case["order"]:
+            sel = pn == plate
+            k_ = int(sel.sum())
+            vals = [0.25 * (j + i + 1) for i in range(k_)] if case["pattern"] == "graded" else [special[(j + i) % len(special)] for i in range(k_)]
+            j += k_
+            s.set_observed(sel, np.array(vals, dtype=float))
+            col.transitions += 1
+        round_trip(s, cycles, col, case, "observed", tmp, verbose)
+        return
     if kind == "tinydoses":
         # doses in mol/L: several dose levels of one drug that differ only beyond the 6th decimal
         doses = case["doses"]
@@ -513,6 +534,21 @@ def _run_item(item, col, tier, tmp):
                 run_case({"kind": "screen", "family": "obsmask", "control": control, "spec": spec, "cycles": 3}, col, tmp)
         # observations=None: the constructor's own zeros / all-False mask
         run_case({"kind": "screen", "family": "obsmask", "control": control, "spec": dict(spec0), "cycles": 3}, col, tmp)
+        return
+    if k == "observed":
+        # histories: a screen built WITHOUT observations, plates observed one after the other through Screen.set_observed
+        # (every ordered selection of distinct plates, two value patterns), optionally saved and reloaded before the first
+        # observation; then the usual save/load cycles.  What is compared is what the screen shows right before the save.
+        for b, (spec0, control) in enumerate(OBSMASK_BASES + [OBSMASK_BASE3]):
+            plates = sorted(set(spec0["pn"]))
+            for r in range(1, len(plates) + 1):
+                for order in itertools.permutations(plates, r):
+                    for pattern in ("graded", "special"):
+                        for pre in (False, True):
+                            case = {"kind": "observed", "family": "observed", "control": control, "spec": dict(spec0),
+                                    "order": list(order), "pattern": pattern, "reload_first": pre, "cycles": 3}
+                            run_case(case, col, tmp)
+        col.sample(case)
         return
     if k == "superset":
         for i in range(item["lo"], item["hi"]):
